@@ -50,6 +50,8 @@ class GArr(object):
 
 
 class Mask(object):
+    shape = (None,)     # array-like: ex_Compare returns it as is
+
     def __init__(self, cond, src):
         self.cond, self.src = cond, src
 
@@ -97,8 +99,7 @@ class SymCOO(object):
         if name in ('row', 'col', 'data'):
             if isinstance(v, Taken):
                 # the three arrays must be taken with the same selection: the entry survives iff the selection keeps it
-                if not v.keep:
-                    self.alive = False
+                self.alive = bool(v.keep)
                 g = GArr(v.expr, self)
                 setattr(self, name, g)
                 self.empty = False
@@ -136,6 +137,9 @@ class COOType(object):
     def sym_isinstance(self, interp, o):
         return isinstance(o, SymCOO) and self.kind == 'coo'
 
+    def __call__(self, *args, **kwargs):
+        return self.sym_call(None, list(args), kwargs)
+
     def sym_call(self, interp, args, kwargs):
         x = args[0]
         if isinstance(x, SymCOO):
@@ -151,6 +155,8 @@ def install(it):
     coo, csr = COOType('coo'), COOType('csr')
     it.contracts['scipy.sparse.coo_matrix'] = lambda itp, a, kw: coo.sym_call(itp, a, kw)
     it.contracts['scipy.sparse.csr_matrix'] = lambda itp, a, kw: csr.sym_call(itp, a, kw)
+    it.shims['scipy.sparse.coo_matrix'] = coo
+    it.shims['scipy.sparse.csr_matrix'] = csr
     np_ = it.np
     import numpy as _np
 
